@@ -75,9 +75,29 @@ def r08_1(prog: Program, rep):
                 n_regions += 1
                 stale = []
                 checked = 0
+                # the handle the lock is bound to (`f = GitFile(..)` / `with GitFile(..) as f`)
+                par = m.parents.get(ac)
+                hname = None
+                if isinstance(par, ast.Assign) and isinstance(par.targets[0], ast.Name):
+                    hname = par.targets[0].id
+                elif isinstance(par, ast.withitem) and isinstance(par.optional_vars, ast.Name):
+                    hname = par.optional_vars.id
+
+                def writes_through_handle(n_):
+                    if hname is None:
+                        return False
+                    for c_ in node_calls(n_):
+                        if isinstance(c_.func, ast.Attribute) and isinstance(c_.func.value, ast.Name) and c_.func.value.id == hname \
+                                and c_.func.attr.startswith("write"):
+                            return True
+                        if any(isinstance(a_, ast.Name) and a_.id == hname for a_ in c_.args):
+                            return True
+                    return False
                 for tid in sorted(region):
                     tn = g.nodes[tid]
-                    if tn.kind != "test":
+                    # sinks: tests inside the region, and what is written through the lock handle (read-modify-write: the
+                    # read must be inside the region as well)
+                    if tn.kind != "test" and not (tn.kind == "stmt" and writes_through_handle(tn)):
                         continue
                     # transitive closure over reaching definitions of the names the test loads
                     seen = set()
@@ -110,7 +130,8 @@ def r08_1(prog: Program, rep):
                         seen_defs.add(d)
                         dn = g.nodes[d]
                         rep.ob("R08.1", REFS_PY, f.qual, f"stale read: {norm(dn.ast, 70)}", False,
-                               f"a value read with {rv} before the lock was taken feeds the test "
+                               f"a value read with {rv} before the lock was taken feeds "
+                               f"{'the test' if g.nodes[tid].kind == 'test' else 'what is written by'} "
                                f"`{norm(g.nodes[tid].ast, 60)}` inside the lock region", dn.line,
                                [dn.line, ac.lineno, g.nodes[tid].line])
     rep.count("lock regions (files backend)", n_regions)
@@ -319,7 +340,15 @@ def r08_4(prog: Program, rep):
         if s.func is None:
             continue
         if s.method == "add_if_new":
-            continue       # documented meaning when unused: "only if absent"
+            # unused result = "only if absent" (documented idiom) - except where the call is the create-branch twin of a
+            # checked compare-and-swap in the same function (commit on an unborn branch): siblings must agree, the loser
+            # of a creation race must be told
+            twins = [t for t in sites if t.func is s.func and t.method == "set_if_equals" and t.conditional and not result_dropped(t)]
+            if twins:
+                rep.ob("R08.4", s.func.module.rel, s.func.qual, s.key + " (create-branch twin of a checked set_if_equals)", not result_dropped(s),
+                       "the same function checks the result of set_if_equals but drops the result of add_if_new on the "
+                       "unborn-branch path: the loser of a creation race is told its commit succeeded", s.call.lineno)
+            continue
         if not s.conditional:
             rep.count("unconditional CAS calls (old_ref=None)")
             continue
